@@ -29,6 +29,7 @@ type StressConfig struct {
 	Corrupt bool // truncate an indexed file before some rounds
 	Proxy   bool
 	Hist    int
+	Storm   int // >0: instead of random rounds, lose the files of half of Storm entries and read every key from 8 goroutines at once
 }
 
 // StressResult reports what a stress history did.
@@ -86,9 +87,18 @@ func RunStress(cfg StressConfig) (*StressResult, error) {
 	}
 
 	damaged := []string{}
+	lost := []string{}
+	if cfg.Storm > 0 {
+		for i := 0; i < 3; i++ {
+			if _, err := runStorm(cfg, c, rng, res, viol); err != nil {
+				return res, err
+			}
+		}
+		return res, nil
+	}
 	for round := 0; round < cfg.Rounds; round++ {
 		hot := -1 // index in pool of the blob whose file was damaged for this round
-		if cfg.Corrupt && cfg.Mode == "zstd" && round%2 == 1 {
+		if cfg.Corrupt && round%2 == 1 {
 			// damage one indexed CAS file on disk (truncate it), as a crash or a
 			// bad disk would; readers must drop it without corrupting the index
 			s := disk.VerifSnapshot(c)
@@ -101,9 +111,15 @@ func RunStress(cfg StressConfig) (*StressResult, error) {
 			if len(cands) > 0 {
 				e := cands[rng.Intn(len(cands))]
 				// a truncated v2 file is detected by its header; raw files carry no
-				// integrity data (that is C08's finding), so only zstd mode is damaged
-				_ = os.Truncate(filepath.Join(s.Dir, e.Path), e.Dsz/2)
-				damaged = append(damaged, e.Path)
+				// integrity data (that is C08's finding), so they are only ever lost
+				if cfg.Mode == "zstd" && rng.Intn(2) == 0 {
+					_ = os.Truncate(filepath.Join(s.Dir, e.Path), e.Dsz/2)
+					damaged = append(damaged, e.Path)
+				} else {
+					_ = os.Remove(filepath.Join(s.Dir, e.Path))
+					disk.VerifNote(c, "FileLost", filepath.Join(s.Dir, e.Path))
+					lost = append(lost, e.Path)
+				}
 				for i, b := range pool {
 					if "cas/"+b.Hash == e.Key {
 						hot = i
@@ -200,7 +216,7 @@ func RunStress(cfg StressConfig) (*StressResult, error) {
 		if !rec.WaitIdle(c, 30*time.Second) {
 			return res, fmt.Errorf("remover did not drain within 30s")
 		}
-		s, d, err := rec.SnapshotD(c, true, true, damaged)
+		s, d, err := rec.SnapshotO(c, true, true, rec.SnapOpts{Damaged: damaged, Lost: lost})
 		if err != nil {
 			return res, err
 		}
@@ -212,8 +228,119 @@ func RunStress(cfg StressConfig) (*StressResult, error) {
 			if cfg.Corrupt && v.Prop == "C04" && len(v.What) > 5 && v.What[:5] == "file " && bytes.Contains([]byte(v.What), []byte("index records")) {
 				continue
 			}
+			if cfg.Corrupt && v.Prop == "C04" && bytes.Contains([]byte(v.What), []byte("has no file")) {
+				// an entry whose file the driver removed and that nobody has read since
+				exempt := false
+				for _, l := range lost {
+					if bytes.Contains([]byte(v.What), []byte(l)) {
+						exempt = true
+					}
+				}
+				if exempt {
+					continue
+				}
+			}
 			res.Violations = append(res.Violations, v)
 		}
+	}
+	return res, nil
+}
+
+// runStorm: many entries lose their files behind the cache's back, then every
+// key is read by several goroutines at the same instant. Each reader finds the
+// file missing and takes the slow path; the index must drop each entry once.
+func runStorm(cfg StressConfig, c disk.Cache, rng *rand.Rand, res *StressResult, viol func(p, f string, a ...any)) (*StressResult, error) {
+	ctx := context.Background()
+	type ent struct {
+		hash string
+		val  []byte
+		kind cache.EntryKind
+	}
+	var ents []ent
+	for i := 0; i < cfg.Storm; i++ {
+		v := bytes.Repeat([]byte{byte(1 + rng.Intn(250))}, 50+rng.Intn(3000))
+		e := ent{hash: MkBlob([]byte(fmt.Sprintf("storm-%d-%d-%d", cfg.Seed, i, rng.Int63()))).Hash, val: v, kind: cache.AC}
+		if i%3 == 0 {
+			b := MkBlob(GenData(rng, 50+rng.Intn(3000), i%2))
+			e = ent{hash: b.Hash, val: b.Data, kind: cache.CAS}
+		}
+		if err := c.Put(ctx, e.kind, e.hash, int64(len(e.val)), bytes.NewReader(e.val)); err != nil {
+			// a few hundred small entries in a 2 MiB cache: every upload fits
+			viol("C03", "upload of %d bytes into a cache with room refused: %v", len(e.val), err)
+			return res, nil
+		}
+		ents = append(ents, e)
+	}
+	s := disk.VerifSnapshot(c)
+	paths := map[string]string{}
+	for _, e := range s.Entries {
+		paths[e.Key] = e.Path
+	}
+	var lost []string
+	for i, e := range ents {
+		if i%2 == 0 {
+			p := paths[cache.LookupKey(e.kind, e.hash)]
+			if p == "" {
+				continue
+			}
+			_ = os.Remove(filepath.Join(s.Dir, p))
+			disk.VerifNote(c, "FileLost", filepath.Join(s.Dir, p))
+			lost = append(lost, p)
+		}
+	}
+	var wg sync.WaitGroup
+	start := make(chan struct{})
+	var mu sync.Mutex
+	for i := range ents {
+		for r := 0; r < 8; r++ {
+			wg.Add(1)
+			go func(e ent, r int) {
+				defer wg.Done()
+				<-start
+				if r == 7 && e.kind == cache.AC {
+					// one writer per key races with the readers
+					_ = c.Put(ctx, e.kind, e.hash, int64(len(e.val)), bytes.NewReader(e.val))
+					return
+				}
+				rc, _, err := c.Get(ctx, e.kind, e.hash, -1, 0)
+				mu.Lock()
+				res.Ops++
+				mu.Unlock()
+				if err == nil && rc != nil {
+					data, rerr := io.ReadAll(rc)
+					_ = rc.Close()
+					mu.Lock()
+					res.Hits++
+					mu.Unlock()
+					if rerr == nil && !bytes.Equal(data, e.val) {
+						viol("C07", "read of %s during a lost-file storm returned %d bytes that are not the stored %d bytes", e.hash[:8], len(data), len(e.val))
+					}
+				}
+			}(ents[i], r)
+		}
+	}
+	close(start)
+	done := make(chan struct{})
+	go func() { wg.Wait(); close(done) }()
+	select {
+	case <-done:
+	case <-time.After(120 * time.Second):
+		viol("C07", "requests still blocked after 120s (deadlock)")
+		return res, nil
+	}
+	if !rec.WaitIdle(c, 30*time.Second) {
+		return res, fmt.Errorf("remover did not drain within 30s")
+	}
+	sn, d, err := rec.SnapshotO(c, true, true, rec.SnapOpts{Lost: lost})
+	if err != nil {
+		return res, err
+	}
+	res.Quiescent++
+	for _, v := range CheckQuiescent(c, sn, d, cfg.Hist, 0) {
+		if v.Prop == "C04" && bytes.Contains([]byte(v.What), []byte("has no file")) {
+			continue // entries whose file the driver removed and nobody dropped
+		}
+		res.Violations = append(res.Violations, v)
 	}
 	return res, nil
 }
